@@ -112,7 +112,7 @@ package kube
 //@   pure
 // (A-K8S) an object returned by the API server is a freshly decoded object; apps/v1 deployments carry a selector
 //@ extern appsv1c.(DeploymentInterface).Get(recv, ctx, name, opts)
-//@   pure
+//@   modifies nothing
 //@   ensures result1 == nil ==> result0 != nil && fresh(result0) && result0.Spec.Selector != nil && fresh(result0.Spec.Selector)
 //@ extern appsv1c.(DeploymentInterface).Create(recv, ctx, obj, opts)
 //@   pure
@@ -141,7 +141,7 @@ package kube
 //@ extern corev1c.(CoreV1Interface).Services(recv, namespace)
 //@   pure
 //@ extern corev1c.(ServiceInterface).Get(recv, ctx, name, opts)
-//@   pure
+//@   modifies nothing
 //@   ensures result1 == nil ==> result0 != nil && fresh(result0)
 //@ extern corev1c.(ServiceInterface).Create(recv, ctx, obj, opts)
 //@   pure
@@ -150,7 +150,7 @@ package kube
 //@ extern netv1c.(NetworkingV1Interface).Ingresses(recv, namespace)
 //@   pure
 //@ extern netv1c.(IngressInterface).Get(recv, ctx, name, opts)
-//@   pure
+//@   modifies nothing
 //@   ensures result1 == nil ==> result0 != nil && fresh(result0)
 //@ extern netv1c.(IngressInterface).Create(recv, ctx, obj, opts)
 //@   pure
@@ -159,7 +159,7 @@ package kube
 //@ extern netv1c.(NetworkingV1Interface).NetworkPolicies(recv, namespace)
 //@   pure
 //@ extern netv1c.(NetworkPolicyInterface).Get(recv, ctx, name, opts)
-//@   pure
+//@   modifies nothing
 //@   ensures result1 == nil ==> result0 != nil && fresh(result0)
 //@ extern netv1c.(NetworkPolicyInterface).Create(recv, ctx, obj, opts)
 //@   pure
@@ -170,7 +170,7 @@ package kube
 //@ extern akashv1c.(AkashV1Interface).Manifests(recv, namespace)
 //@   pure
 //@ extern akashv1c.(ManifestInterface).Get(recv, ctx, name, opts)
-//@   pure
+//@   modifies nothing
 //@   ensures result1 == nil ==> result0 != nil && fresh(result0)
 //@ extern akashv1c.(ManifestInterface).Create(recv, ctx, obj, opts)
 //@   pure
